@@ -111,7 +111,8 @@ def _short(rng, vals):
 
 def _double_erase(rng, vals):
     """two iterators on the same element, erased twice (the second erase must be a no-op)"""
-    return [[LOCKW], [BEGIN, 0], [BEGIN, 1], [ERASE, 0], [ERASE, 1], [DEREF, 1], [NEXT, 1], [RELEASE]]
+    k = rng.range(0, 2)     # not only the head: the successor erase() returns then differs from begin()
+    return [[LOCKW], [BEGIN, 0]] + [[NEXT, 0]] * k + [[BEGIN, 1]] + [[NEXT, 1]] * k + [[ERASE, 0], [ERASE, 1], [DEREF, 1], [NEXT, 1], [DEREF, 1], [RELEASE]]
 
 
 def _role(rng, vals):
@@ -276,7 +277,8 @@ def _open_handle(case, lines):
 
 def mon_fault(case, lines):
     """any K_FAULT other than the client-misuse code 9: ledger (1), null destroy/deallocate (2), use after free (3)"""
-    names = {1: 'allocator ledger violation', 2: 'destroy/deallocate of a null pointer', 3: 'access to a cell that is not alive (use after free)'}
+    names = {1: 'allocator ledger violation', 2: 'destroy/deallocate of a null pointer', 3: 'access to a cell that is not alive (use after free)',
+             5: 'emplace_* moved from an LVALUE argument: the caller\'s object was emptied (arguments must be forwarded, not moved)'}
     for i, t, k, o, v, m in _events(lines):
         if k == K['FAULT'] and v != 9:
             return 'thread %d at trace line %d: %s (object %d)' % (t, i, names.get(v, 'fault %d' % v), o)
@@ -411,11 +413,23 @@ def mon_traversal(case, lines):
                 return 'thread %d iterator %d visited an object that is not a list node' % key
             if rank[a] >= rank[b]:
                 return 'thread %d iterator %d went from node %d to node %d: not forward in list order' % (key + (a, b))
-        if tr['end'] is not None:
+        if tr['end'] is not None and not tr.get('partial'):
             for n in pos:
                 if linked_at[n] < tr['start'] and erase_at.get(n, 10 ** 9) > tr['end'] and n not in seq:
                     return 'thread %d iterator %d ran to the end but skipped element %d (value %d) that was in the list all along' % (key + (n, val[n]))
         return None
+    node_objs = set(o for (_, _, k, o, v, _) in _events(lines) if k == K['ALLOC'] and v == 1)
+    erased_succ = {}
+    er = []
+    for op in _ops(case, lines):
+        if op['op'][0] in (ERASE, ERASEF):
+            lk = [e for e in op['evs'] if e[1] in (K['LOCK'], K['TRYLOCK_FOR'])]
+            ld = [e for e in op['evs'] if lk and e[0] > lk[0][0] and e[1] == K['LOAD'] + PTR]
+            real = any(e[1] == K['ALLOC'] and e[3] == 2 and lk and e[0] > lk[0][0] for e in op['evs'])   # it built a record: it unlinked
+            if real and ld and ld[0][2] in node_objs:
+                er.append((lk[0][0], ld[0][2], ld[0][3]))
+    for _, cn, sv in sorted(er):
+        erased_succ.setdefault(cn, sv)
     for op in _ops(case, lines):
         c, t = op['op'][0], op['t']
         key = (t, op['op'][1]) if len(op['op']) > 1 else None
@@ -437,8 +451,18 @@ def mon_traversal(case, lines):
                 else:
                     trav[key]['end'] = ld[-1][0]
         elif c in (ERASE, ERASEF) and key in trav:
-            if op['evs'] and not any(e[1] == K['THROW'] for e in op['evs']):
-                trav.pop(key)   # the iterator jumps to the successor read before the unlink: not a plain traversal any more
+            if any(e[1] in (K['LOCK'], K['TRYLOCK_FOR']) for e in op['evs']) and not any(e[1] == K['THROW'] for e in op['evs']):
+                # erase returns the successor it read first (also when the element was already erased): from here on the
+                # iterator is followed as a partial traversal starting at that node (no skip check)
+                lk = [e for e in op['evs'] if e[1] in (K['LOCK'], K['TRYLOCK_FOR'])]
+                ld = [e for e in op['evs'] if lk and e[0] > lk[0][0] and e[1] == K['LOAD'] + PTR]
+                cnode = trav[key]['seq'][-1] if trav[key]['seq'] else None
+                trav.pop(key)
+                # the successor: what the erase that really unlinked the element read from its next field (an erased
+                # element keeps that pointer), else what this erase read
+                h = erased_succ.get(cnode, ld[0][3] if ld else None)
+                if h is not None and op['i1'] is not None:
+                    trav[key] = {'start': op['i1'], 'seq': [h] if h else [], 'end': None, 'partial': True}
         elif c == DEREF:
             rd = [e for e in op['evs'] if e[1] == K['RD_END']]
             if rd and rd[0][3] not in inserted:
